@@ -121,6 +121,13 @@ func c12DrawOps(t *rapid.T) []c12Op {
 		}
 		ops = append(ops, op)
 	}
+	// a long run of bare acquire/release cycles of one node somewhere in the history: ID schemes that pack a counter
+	// into a few bits, or wrap, only collide after tens of thousands of reuses of the same pooled node
+	if rapid.IntRange(0, 24).Draw(t, "withChurn") == 12 {
+		at := rapid.IntRange(0, len(ops)).Draw(t, "churnAt")
+		k := rapid.SampledFrom([]int{300, 70000, 70000, 140000}).Draw(t, "churnK")
+		ops = append(ops[:at], append([]c12Op{{Op: "churn", K: k}}, ops[at:]...)...)
+	}
 	return ops
 }
 
@@ -412,6 +419,38 @@ func c12RunOps(c c12Case) obs.Result {
 				s.remove(m)
 			}
 			classes["pool-probe"] = true
+		case "churn":
+			k := op.K
+			if k < 1 {
+				k = 1
+			}
+			if k > 300000 {
+				k = 300000
+			}
+			for j := 0; j < k; j++ {
+				n := idr.CreateNode(idr.ElementNode, "churn")
+				if m, isLive := s.live[n]; isLive {
+					return fail(i, op, fmt.Errorf("churn cycle %d: a node that is still live (model index %d) was handed out a second time", j, s.indexOf(m)))
+				}
+				if n.Parent != nil || n.FirstChild != nil || n.LastChild != nil || n.PrevSibling != nil || n.NextSibling != nil || n.FormatSpecific != nil {
+					return fail(i, op, fmt.Errorf("churn cycle %d: freshly acquired node is not blank", j))
+				}
+				if s.ids[n.ID] {
+					owner := "a node released earlier in this history"
+					for _, m := range s.live {
+						if m.id == n.ID {
+							owner = fmt.Sprintf("the live node at model index %d (%s %q)", s.indexOf(m), m.typ, m.data)
+						}
+					}
+					return fail(i, op, fmt.Errorf("churn cycle %d of %d: node acquired with ID %d, which %s already carries/carried: IDs are not unique", j, k, n.ID, owner))
+				}
+				s.ids[n.ID] = true
+				idr.RemoveAndReleaseTree(n)
+			}
+			classes["churn"] = true
+			if k >= 1<<16 {
+				classes["churn>=65536"] = true
+			}
 		default:
 			return obs.Result{Excluded: "unknown operation " + op.Op}
 		}
